@@ -468,7 +468,7 @@ def run(ctx):
         extra_cov={'exhaustive': False, 'drawings': len(cases), 'distribution': hist, 'noise_outcomes': outcome, 'canvas_model': dict(cv_stats, differ=cv_differ, regular_drawings_differ=cv_regular_bad, seconds=round(time.time() - cv_t0, 1))},
         assumptions=['cell texts contain no box-drawing characters', 'allowed values are drawn for all clauses or for none (the text format has one values line)',
                      'in a rules-as-columns table the first input expression is not a hit-policy marker and output names are not numbers (the recogniser would take them for the marker / rule numbers)'],
-        trusted=['dv recognize (dmntk_recognizer::build, Recognizer::recognize, build_decision_table_evaluator)', 'props/c19draw.py (the drawing conventions follow /repo/examples)'])
+        trusted=['dv recognize (dmntk_recognizer::build, Recognizer::recognize, build_decision_table_evaluator)', 'dv canvas (dmntk_recognizer::scan, Canvas::plane; cells read through Plane::cell / region_number / region_text and the Debug text of the rectangle)', 'props/c19draw.py (the drawing conventions follow /repo/examples)'])
 
 
 def replay(ctx, path):
@@ -494,7 +494,7 @@ def replay(ctx, path):
 
 
 MANIFEST = dict(
-    technique='Coq model of the plane-level recogniser with unbounded round-trip theorems, plus correspondence on drawn Unicode text (drawing -> recogniser -> fields, plane, orientation, evaluation vs DMN XML) and corruption/arbitrary-text robustness runs',
+    technique='Coq model of the plane-level recogniser with unbounded round-trip theorems and of the characters -> plane scan (canvas.rs) with theorems on regular drawings, plus correspondence on drawn Unicode text (drawing -> recogniser -> fields, plane, orientation, evaluation vs DMN XML) and corruption/arbitrary-text robustness runs',
     text='coq/Props/C19.v (closed under the global context): for EVERY well-shaped table - any numbers of inputs, outputs, annotations, rules, any texts, with/without output label and allowed values - '
          'recognize_horizontal (layout_h t) = fields_of t (C19_plane_roundtrip_h); with the marker / rule-number column the whole plane of a rules-as-rows drawing is read back including orientation, hit policy and rule count '
          '(C19_plane_roundtrip_rows, abstract text parsers); pivot is an involution on rectangular planes and a rules-as-columns plane normalises to the same plane (C19_pivot_involutive, C19_columns_normalise); '
@@ -503,7 +503,11 @@ MANIFEST = dict(
          'C19_pivot_first_line_and_column) under two boolean hypotheses: first_input_not_marker (the first input expression is not a marker text) and first_output_not_number (the top-left text of the output block is not a number); '
          'C19_columns_hypotheses_needed shows by computation that without them the plane is rejected (Err, same as the code), not misread. '
          'Every run DRAWS >= 800 tables (both orientations, all combinations of information item name / values / label / annotations, random widths, alignments, multi-line and merged cells) and requires every recognised field to equal the drawn text block, '
-         'the built plane to equal the model layout, orientation / rule count / fields to equal the model recognition, and the evaluation to equal that of the equivalent DMN XML; about 5k single-character corruptions and 6k arbitrary/mangled texts must return Ok or Err.',
+         'the built plane to equal the model layout, orientation / rule count / fields to equal the model recognition, and the evaluation to equal that of the equivalent DMN XML; about 5k single-character corruptions and 6k arbitrary/mangled texts must return Ok or Err. '
+         'CHARACTERS -> PLANE: coq/C19/Canvas.v is an executable transliteration of canvas.rs (lines / trim / rectangle of characters, information item name, the three crossings, body rectangle, the THIN / BODY / GRID layers, region walk and numbering, '
+         'the walk of Canvas::plane, text_from_rect, Plane::finalize; results Ok / Err / Panic); every run requires canvas_cplane text = the outcome of scan + plane of the code (dv canvas) on 300 drawings of all styles and 400 noise texts - information item name, every cell with region number, rectangle and text, Err exactly when the code rejects - '
+         'and canvas.rs on the text of the Gallina draw function = expected_plane for 60 random regular tables. Proved for EVERY regular drawing (any numbers of columns and lines, any widths, any texts without box characters): the passes of scan succeed with exactly the drawn crossings, body rectangle = the drawing, THIN = BODY = GRID (C19_canvas_scan_regular); '
+         'for every cell the region walk and the rectangle walk close on the drawn frame and the text read is the drawn text (C19_canvas_cells_regular). Bounded (81 shapes, vm_compute): text -> plane = the drawn plane, text -> table = the drawn table (C19_draw_roundtrip_regular_bounded_partial, C19_text_to_table_bounded_partial).',
     category='proof',
-    note='PARTIAL: the character grid -> plane step (canvas.rs: region flood fill, double-line crossings) is not modelled, it is sampled by the drawings; a rules-as-columns drawing whose first input expression is itself a marker text (U, A, P, F, R, O, C, C+ ...) or whose first output label/name is a number other than 1 '
+    note='PARTIAL: the character grid -> plane step (canvas.rs) is modelled (coq/C19/Canvas.v) and compared with the code cell by cell on every run, but proved for every shape only up to the per-cell steps (C19_canvas_scan_regular, C19_canvas_cells_regular: regular unmerged single-line drawings); the assembly of the plane rows and the splitting of the text into lines are proved on 81 bounded shapes only (C19_draw_roundtrip_regular_bounded_partial, C19_text_to_table_bounded_partial); merged / multi-line cells and totality of the scan on arbitrary text are covered by the correspondence only; a rules-as-columns drawing whose first input expression is itself a marker text (U, A, P, F, R, O, C, C+ ...) or whose first output label/name is a number other than 1 '
          'is rejected with an error by the code and by the model (hypotheses of C19_plane_roundtrip_columns). One panic of the pinned commit was repaired (fix: non-rectangular plane).')
